@@ -111,6 +111,13 @@ def build_collide(spec):
     return sim
 
 
+def reattach(sim, spec):
+    """function pointers are not part of a snapshot: give a simulation loaded from one the callbacks its scenario uses"""
+    if spec.get("kind") == "collide":
+        sim.collision_resolve = "hardsphere"
+    return sim
+
+
 def build(spec):
     if spec.get("kind") == "collide":
         return build_collide(spec)
@@ -486,11 +493,12 @@ def mode_server(p):
         if cont_budget > 0 and s.t < tmax:
             cont_budget -= 1
             # continue the served snapshot and the snapshot the reference run (no server) took itself at the same boundary
+            reattach(s, spec)
             s.integrate(tmax, exact_finish_time=eft)
             res["continued"] += 1
             kk = phys_key(s)
             if k in bytesA:
-                s0 = rebound.Simulation(bytesA[k])
+                s0 = reattach(rebound.Simulation(bytesA[k]), spec)
                 s0.integrate(tmax, exact_finish_time=eft)
                 k0 = phys_key(s0)
             else:
